@@ -1,7 +1,7 @@
 (* C02 — parsing depends only on the bytes; a bad frame costs exactly one error. *)
 From Coq Require Import List Arith.
 From EN Require Import Lib.Bytes Frame.Framer Frame.ReadUntil Frame.BufReadUntil Stream.Consumer Stream.SpecDecode
-  Proofs.C02_proofs.
+  Proofs.C02_proofs Proofs.Fixed_proofs Proofs.BufFixed_proofs.
 Import ListNotations.
 
 (* For every byte stream whose frames are safely within the limit (payload + separator < limit, the band in which
@@ -21,6 +21,28 @@ Proof.
   exact (paths_agree_l sep keep_end dec Hne limit sizehint s cs1 cs2 fuel Hl Hs H1 H2 H3 Hf).
 Qed.
 Print Assumptions events_chunk_independent.
+
+(* Fixed-size framing (FixedSizePacketSerializer, struct serializers): ANY byte stream (no size band: records cannot be
+   oversized), any chunking on the copying path, any sequence of fitting recv_into fills and any size hint on the
+   buffer-filling path: the same events, namely record-by-record decoding. *)
+Theorem fixed_size_paths_agree :
+  forall (P : Type) (size sizehint : nat) (dec : decoder P),
+    1 <= size ->
+    forall (s : bytes) (chunks fills : list bytes) (fuel : nat),
+      Forall (fun ch => ch <> []) chunks -> concat chunks = s -> concat fills = s -> length s < fuel ->
+      fills_fit (bfx_framer size dec) sizehint fuel (bcinit _) fills ->
+      exists c1 c2,
+        cdeliver (rx_framer size dec) fuel (cinit _) chunks = (c1, fst (fx_events size dec s)) /\
+        bcfills (bfx_framer size dec) sizehint fuel (bcinit _) fills = (c2, fst (fx_events size dec s)).
+Proof.
+  intros P size sizehint dec Hs s chunks fills fuel Hne H1 H2 Hf Hfit.
+  destruct (xdeliver_spec size dec Hs chunks (cinit _) [] fuel (xrep_idle size dec) Hne) as (c1 & Hd1 & _);
+    [cbn [app]; rewrite H1; exact Hf |].
+  destruct (bfx_fills_spec size dec sizehint Hs fuel fills (bcinit _) [] (frep_idle size dec sizehint None 0 I) Hfit) as (c2 & Hd2 & _);
+    [cbn [app]; rewrite H2; exact Hf |].
+  cbn [app] in *. rewrite H1 in Hd1. rewrite H2 in Hd2. exists c1, c2. split; assumption.
+Qed.
+Print Assumptions fixed_size_paths_agree.
 
 (* In the specification a malformed (undecodable) frame between whole frames f1 and any continuation f2 yields exactly
    one parse error, consumes exactly that frame, and every later frame is decoded as if the bad frame were absent.
